@@ -2,6 +2,8 @@
 package c09
 
 import (
+	"sort"
+	"unicode"
 	"encoding/json"
 	"fmt"
 	"strings"
@@ -226,7 +228,7 @@ func TestMeaninglessRangesRejected(t *testing.T) {
 		ctxPre := rapid.SampledFrom([]string{"", "a", "(b|", "x*", "[0-9]", "^"}).Draw(t, "pre")
 		ctxPost := map[string]string{"": "", "a": "b", "(b|": ")", "x*": "y", "[0-9]": "z", "^": "$"}[ctxPre]
 		if rapid.Bool().Draw(t, "charRange") {
-			hi := rapid.SampledFrom([]rune{'b', 'z', '9', 'Z', 0x7E, 0xE9, 0x3A9, 0x1F64F}).Draw(t, "hi")
+			hi := rapid.SampledFrom([]rune{'b', 'z', '9', 'Z', 0x7E, 0xE9, 0x3A9, 0x1F64F, 0xE000, 0xE001, 0xDFFF, 0xD801, 0xFFFD, 0xFFFE, 0x10000, 0x10FFFF}).Draw(t, "hi")
 			lo := hi - rune(rapid.IntRange(1, 40).Draw(t, "d"))
 			if lo < 0x21 {
 				lo = 0x21
@@ -270,10 +272,76 @@ func TestMeaninglessRangesRejected(t *testing.T) {
 }
 
 // regression tier: the inputs of repaired defects (known_findings.json, status fixed)
+// Class names: \p{Name} is a sentence exactly for the documented category names.  Candidates are every table name
+// of the Go unicode package (categories, scripts, properties), which an implementation is likely to look names up in,
+// plus names of classes that exist in other notations.
+func TestUnicodeClassNames(t *testing.T) {
+	rec.Begin(t)
+	rec.Rule(rule)
+	if rec.Shard() != 0 {
+		t.Skip("seed independent: shard 0 only")
+	}
+	seen := map[string]bool{}
+	var names []string
+	add := func(n string) {
+		if !seen[n] {
+			seen[n] = true
+			names = append(names, n)
+		}
+	}
+	for n := range unicode.Categories {
+		add(n)
+	}
+	for n := range unicode.Scripts {
+		add(n)
+	}
+	for n := range unicode.Properties {
+		add(n)
+	}
+	for _, n := range []string{"ASCII", "Ascii", "ascii", "Any", "Assigned", "L&", "LC", "Alpha", "Alnum", "Digit", "Word", "Space", "Blank", "Upper", "Lower", "Punct", "Xdigit", "Cntrl", "Graph", "Print",
+		"Letter", "Mark", "Number", "Punctuation", "Separator", "Symbol", "Math", "Emoji", "Persian", "Other", "Control", "C", "Cc", "Cf", "Co", "Cs", "Cn", "letter", "LETTER", "lu", "LU", "Greek ", " Greek", "Gre", "Greekk", "", "L ", "Is_L", "IsL", "^L", "L|M", "UTF-8", "Invalid"} {
+		add(n)
+	}
+	sort.Strings(names)
+	documented, accepted := 0, 0
+	for _, n := range names {
+		for _, tpl := range []string{`\p{%s}`, `\P{%s}`, `[\p{%s}]`, `a\p{%s}b`, `[^\P{%s}x]`} {
+			s := fmt.Sprintf(tpl, n)
+			sentence := ref.IsPatternSentence(s)
+			if sentence {
+				documented++
+			}
+			ok, err := checkText(s)
+			if ok {
+				accepted++
+			}
+			rec.Case("class-name:"+s, sentence, "unicode_class_name")
+			if err != nil {
+				rec.Fail(t, "text", input{Text: s, Mode: "any"}, "%v", err)
+			}
+			if sentence {
+				if err := checkCanonical(s); err != nil {
+					rec.Fail(t, "text", input{Text: s, Mode: "canonical"}, "%v", err)
+				}
+			}
+		}
+	}
+	rec.Count("class_name_candidates", len(names))
+	rec.Count("class_name_texts_documented", documented)
+	rec.Count("class_name_texts_accepted", accepted)
+}
+
 func TestFixedRegressions(t *testing.T) {
 	rec.Begin(t)
 	if rec.Shard() != 0 {
 		t.Skip("seed independent: shard 0 only")
+	}
+	// ranges whose end points are surrogate code points are ordinary ranges
+	for _, s := range []string{`[\xD800-\xE000]`, `[\xDFFE-\xE001]`, `[\xD7FF-\xD800]`, `[\xD800-\xDFFF]`, `[\x0000D800-\x0000E000]`, `[\xFFFD-\xFFFE]`} {
+		rec.Case("regression:"+s, true, "regression")
+		if err := checkCanonical(s); err != nil {
+			rec.Fail(t, "text", input{Text: s, Mode: "canonical"}, "%v", err)
+		}
 	}
 	for _, s := range []string{"a)", "a|", "a**", "a{,2}", `a\`, "a]", "(a))", "[a]]", "a{1}{2}", "", "a{2,1}x)"} {
 		ok, err := checkText(s)
